@@ -63,6 +63,11 @@ func (r *shortReader) Read(p []byte) (int, error) {
 	return n, nil
 }
 
+// zeroOpts is a caller-defined options type asking for plain (unhashed) signing.
+type zeroOpts struct{}
+
+func (zeroOpts) HashFunc() crypto.Hash { return crypto.Hash(0) }
+
 type failingReader struct{}
 
 func (failingReader) Read([]byte) (int, error) { return 0, io.ErrUnexpectedEOF }
@@ -177,6 +182,17 @@ func checkSign(c signCase) (h.Info, error) {
 		}
 		if !ed25519.Verify(pub, msg, want) {
 			return info, fmt.Errorf("after a Verify call rejected for %s (pk %x, msg %x, sig %x), Verify rejects the honest signature of seed %x msg %x", bad.kind, bad.pk, bad.msg, bad.sig, seed, msg)
+		}
+	}
+	// any options value whose HashFunc() is zero asks for plain Ed25519, whatever its dynamic type
+	for oi, opts := range []crypto.SignerOpts{zeroOpts{}, &zeroOpts{}, &stded.Options{}, &stded.Options{Hash: crypto.Hash(0)}} {
+		wantO, errO := std.Sign(nil, msg, opts)
+		if errO != nil {
+			return info, fmt.Errorf("PRECONDITION: crypto/ed25519 refuses options #%d: %v", oi, errO)
+		}
+		gotO, err := signer.Sign(nil, msg, opts)
+		if err != nil || !bytes.Equal(gotO, wantO) {
+			return info, fmt.Errorf("PrivateKey.Sign(nil, msg %x, options #%d of type %T with HashFunc() = 0) with seed %x = %x, %v; crypto/ed25519 with the same arguments gives %x", msg, oi, opts, seed, gotO, err, wantO)
 		}
 	}
 	for _, hf := range []crypto.Hash{crypto.SHA512, crypto.SHA256, crypto.SHA1} {
